@@ -21,6 +21,12 @@ SCOPE_POOLS = [
     ["a", ["enum", "BLUE"]],
     [1.5],
     [["bool", 1]],
+    [["tup", ["shard", None]]],
+    [["tup", ["shard", 3]]],
+    [["dtn", 5]],
+    [["dta", 7]],
+    [["cplx", 1]],
+    [["cplx", 2]],
 ]
 PLAIN_SCOPES = [[], ["a"], ["b"], ["a", 1], [1], [2, "x"], ["c", "d"]]
 
@@ -183,6 +189,28 @@ class Gen:
         self.usable.append(i)
         return node
 
+    def add_lit_chain(self):
+        """call A -> literal -> literal -> ... -> consumer: ordering routed only through literal nodes, where
+        some of the literals are also arguments of other calls (so that they are not bypassed as trivial)."""
+        calls = [n["id"] for n in self.nodes if n["kind"] == "call"]
+        if not calls:
+            return
+        prev = self.rng.choice(calls)
+        for _ in range(self.rng.randrange(1, 4)):
+            i = self.new_id()
+            self.nodes.append(dict(id=i, kind="lit", value=["c", self.const()], deps=[prev], scope=self.scope()))
+            self.usable.append(i)
+            if self.coin(0.6):
+                side = self.add_call()
+                side["args"] = [["n", i]] + side["args"][:1]
+            prev = i
+        last = self.add_call()
+        if self.coin(0.5):
+            last["args"] = [["n", prev]] + last["args"][:1]
+        else:
+            last["deps"] = sorted(set(last["deps"]) | {prev})
+        last["dur"] = 0.0
+
     def add_gather(self):
         i = self.new_id()
         node = dict(id=i, kind="gather", args=[self.nested()], deps=[], scope=self.scope(),
@@ -269,6 +297,8 @@ class Gen:
                 pass
             elif r < 0.5 * p["p_lit"] + (p["p_src"] if reg else 0):
                 self.add_lit()
+            elif self.coin(p.get("p_lit_chain", 0.0)):
+                self.add_lit_chain()
             elif self.coin(p["p_unpack"]):
                 self.add_unpack()
             elif self.coin(p["p_gather"]) and self.usable:
